@@ -18,21 +18,20 @@ open Rv Rv.SrcViews
     in particular no `ForceUnwrap` of an absent header value is reachable. -/
 theorem shouldCache_eq (d : Rv.CacheControl.Directives) (ignore : Bool) (now : Int) :
     Rv.Generated.Src.shouldCache d ignore now = some (Rv.CacheControl.shouldCache d ignore now) := by
-  unfold Rv.Generated.Src.shouldCache Rv.CacheControl.shouldCache
   rcases d with ⟨cc, ex, rg⟩
-  cases cc <;> cases ex <;> cases ignore <;> cases rg <;> simp
+  cases cc <;> cases ex <;> cases ignore <;> cases rg <;>
+    simp [Rv.Generated.Src.shouldCache, Rv.CacheControl.shouldCache]
   all_goals (repeat' split)
-  all_goals simp_all
-  all_goals omega
+  all_goals (first | done | grind | (simp_all <;> omega) | simp_all | omega)
 
 /-- `HeaderDirectives.GetExpiresOrDefault` of the source = the model's. -/
 theorem getExpiresOrDefault_eq (d : Rv.CacheControl.Directives) (force : Bool) (dflt now : Int) :
     Rv.Generated.Src.getExpiresOrDefault d force dflt now = some (Rv.CacheControl.expiresOrDefault d force dflt now) := by
-  unfold Rv.Generated.Src.getExpiresOrDefault Rv.CacheControl.expiresOrDefault
   rcases d with ⟨cc, ex, rg⟩
-  cases cc <;> cases ex <;> cases force <;> simp
+  cases cc <;> cases ex <;> cases force <;>
+    simp [Rv.Generated.Src.getExpiresOrDefault, Rv.CacheControl.expiresOrDefault]
   all_goals (repeat' split)
-  all_goals simp_all
+  all_goals (first | done | grind | (simp_all <;> omega) | simp_all | omega)
 
 example : Rv.Generated.Src.shouldCache { cc := some { noCache := false, maxAge := 5 }, expires := some 0, range := false } false 10 = some true := by decide
 
